@@ -23,6 +23,15 @@ Definition wrap_int (bits z : Z) : Z :=
   if (int_min bits <=? z) && (z <? 2 ^ (bits - 1)) then z else int_min bits.
 Definition in_range (n i : Z) : bool := (0 <=? i) && (i <? n).
 
+(* utils._downcast_index_array(index_array, size): for size <= 65535 out-of-range indices (negative or >= size) are
+   replaced by the sentinel [size] and the array is cast to uint16 (C cast = reduction mod 2^16); larger axes keep int32.
+   [downcast_with false] is the variant without the `index_array < 0` part of the mask (refuted in the proofs). *)
+Definition downcast_with (mask_negative : bool) (size idx : Z) : Z :=
+  if size <=? 65535 then
+    (if (mask_negative && (idx <? 0)) || (size <=? idx) then size else idx) mod 65536
+  else idx.
+Definition downcast := downcast_with true.
+
 Section CellIndex.
   Context {T : Type} (OP : ops T).
   Let two := ofZ OP 2.
@@ -72,6 +81,15 @@ Section CellIndex.
   Definition grid_row := grid_row_with (floorZ OP).
   Definition grid_cell := grid_cell_with (floorZ OP).
   Definition grid_cell_trunc := grid_cell_with (truncZ OP).
+
+  (* ---------------------------------------------------------------- utils.generate_quick_linesample_arrays
+     = get_linesample + _downcast_index_array per axis; consumed by ImageContainer.get_array_from_linesample
+     (= get_image_from_linesample: the same validity masks) *)
+  Definition quick_row (a : area T) (y : T) : Z := downcast (height a) (grid_row a y).
+  Definition quick_col (a : area T) (x : T) : Z := downcast (width a) (grid_col a x).
+  Definition quick_cell (a : area T) (x y : T) : option (Z * Z) := cell_of a (quick_row a y) (quick_col a x).
+  Definition quick_cell_unmasked (a : area T) (x y : T) : option (Z * Z) :=
+    cell_of a (downcast_with false (height a) (grid_row a y)) (downcast_with false (width a) (grid_col a x)).
 
   (* ---------------------------------------------------------------- GridFilter.get_valid_index *)
   Definition gf_col_with (toZ : T -> Z) (a : area T) (x : T) : Z :=
